@@ -46,7 +46,7 @@ def tlc_sim(tier, sd):
     # the random walks also leave the exhaustive shape bound: 3 channels x 3 samples x up to 3 bins
     consts = dict(c, MaxPlace=t["MaxPlace"], MaxChan=3, MaxSamp=3, BinChoices={1, 2, 3}, EmitCases=True, EmitMod=1, EmitRes=0)
     cfg = tlc.make_cfg(consts, invariants=INVARIANTS)
-    return tlc.run("MC_HFModel", cfg, workers=4, simulate=f"num={t['num']}", depth=t["depth"], timeout=3600, tag=f"sim{sd}")
+    return tlc.run("MC_HFModel", cfg, workers=4, simulate=f"num={t['num']}", depth=t["depth"], timeout=3600, tag=f"sim{sd}", rseed=2000 + sd)
 
 
 def group_chunks(lines, nchunks):
